@@ -46,6 +46,9 @@ class TypeZoo:
         st = Die("structure_type", [("name", "string", b"S"), ("byte_size", "data1", 4)]); self.dies.append(st)
         self.kinds = [(s, "signed"), (u, "unsigned"), (sc, "signed"), (uc, "unsigned"), (bo, "bool"), (utf, "unsigned"), (ad, "unsigned"), (fl, "float"),
                       (s8, "signed"), (u8, "unsigned"), (ptr, "address"), (npt, "address"), (st, "none")]
+        # the types are stored in another order in every file: one offset holds a signed type in this file and an unsigned one in the next
+        # (whatever is remembered about "the type at offset X" must not survive from one file to another)
+        rng.shuffle(self.dies)
         # typedef / cv chains
         for _ in range(5):
             t, k = rng.choice(self.kinds[:11])
